@@ -69,7 +69,7 @@ type Line struct {
 	Kind string   `json:"kind"`
 	Why  string   `json:"why,omitempty"` // mutation / maybe / restriction kind
 	Alts []Alt    `json:"alts,omitempty"`
-	TS   int64    `json:"ts"`             // expected time in ns
+	TS   int64    `json:"ts"`              // expected time in ns
 	NoTS bool     `json:"no_ts,omitempty"` // server assigns the time
 	Cats []string `json:"cats,omitempty"`
 }
@@ -117,6 +117,13 @@ type gen struct {
 	rr map[string]int
 	// thorough runs lower the share of own-measurement lines (measurement creation is a meta operation)
 	measShare int
+	// parserOnly: no invalid line that openGemini only detects after the line-by-line parse
+	// (time out of range: partial write reported by the points writer; missing measurement:
+	// checked for the whole block afterwards)
+	parserOnly bool
+	// longStrings: every valid line carries a ~2 KB string so that the request spans
+	// several 64 KiB read blocks of the server
+	longStrings bool
 }
 
 func (g *gen) next(key string, n int) int {
@@ -501,7 +508,11 @@ func (g *gen) fieldText(v Val, lex string) string {
 
 // validLine builds one valid line. escape==true: the line exercises the scheduled
 // (position, escape form) pair.
-func (g *gen) validLine(escape bool) Line {
+//
+// strict>=1: no measurement name that openGemini documents as unsupported; strict==2
+// (requests that must be accepted as a whole): also no double quote inside a field key,
+// which openGemini is known to refuse.
+func (g *gen) validLine(escape bool, strict int) Line {
 	r := g.r
 	ln := Line{ID: g.newID(), Kind: kValid}
 	meas := identOut{logical: g.meas, text: g.meas}
@@ -587,9 +598,24 @@ func (g *gen) validLine(escape bool) Line {
 			forms = append(forms, "backslash2")
 		}
 		form := forms[g.next("escform@"+pos, len(forms))]
+		if pos == pMeas && form == "control" {
+			// the server copies the name into an X-Influxdb-Error response header, raw control
+			// characters make the response unreadable for Go's HTTP client
+			form = "punct"
+		}
+		if strict > 0 {
+			for pos == pMeas && (form == "comma" || form == "backslash" || form == "backslash2") ||
+				strict == 2 && pos == pFieldK && form == "quote" {
+				form = forms[g.next("escform@"+pos, len(forms))]
+			}
+		}
+		extra := 0.3
+		if strict > 0 && pos == pMeas || strict == 2 && pos == pFieldK {
+			extra = 0 // random extra features could add a restricted character
+		}
 		switch pos {
 		case pMeas:
-			o := g.ident(pMeas, form, 0.3)
+			o := g.ident(pMeas, form, extra)
 			o.logical += ln.ID // unique measurement
 			o.text += ln.ID
 			if o.alt != "" {
@@ -611,7 +637,10 @@ func (g *gen) validLine(escape bool) Line {
 			tags = append(tags, tagT{identOut{logical: "tkv", text: "tkv"}, o})
 			addCat(o.cats...)
 		case pFieldK:
-			o := g.ident(pFieldK, form, 0.3)
+			o := g.ident(pFieldK, form, extra)
+			if strings.Contains(o.logical, `"`) {
+				ln.Why = "quote-in-field-key"
+			}
 			// the key prefix fixes the field type so that a key can never be written with two types
 			typ := []string{"i", "f", "b", "s"}[r.IntN(4)]
 			pre := "f" + typ + "k"
@@ -650,6 +679,17 @@ func (g *gen) validLine(escape bool) Line {
 			flds = append(flds, fldT{identOut{logical: k, text: k}, val, `"` + o.text + `"`})
 			addCat(o.cats...)
 		}
+	}
+	if g.longStrings {
+		var sb strings.Builder
+		for sb.Len() < 2200 {
+			sb.WriteString(g.plain(1, 9))
+			sb.WriteString([]string{" ", ", ", "=", " é ", "\\\\", "\\\"", "."}[r.IntN(7)])
+		}
+		txt := sb.String()
+		logical := strings.NewReplacer(`\\`, `\`, `\"`, `"`).Replace(txt)
+		flds = append(flds, fldT{identOut{logical: "fs3", text: "fs3"}, Val{T: "s", S: logical}, `"` + txt + `"`})
+		addCat("string:long")
 	}
 	if len(flds) == 0 {
 		val := Val{T: "i", I: int64(r.IntN(100))}
@@ -738,6 +778,9 @@ var mutationKinds = []string{
 func (g *gen) invalidLine() Line {
 	r := g.r
 	kind := mutationKinds[g.next("mut", len(mutationKinds))]
+	for g.parserOnly && (kind == "ts-out-of-range" || kind == "missing-measurement") {
+		kind = mutationKinds[g.next("mut", len(mutationKinds))]
+	}
 	ln := Line{ID: g.newID(), Kind: kInvalid, Why: kind}
 	ts := strconv.FormatInt((recentBase*1e9+r.Int64N(400000*1e9))/precMult(g.prec), 10)
 	head := g.meas + ",u=" + ln.ID
@@ -864,7 +907,7 @@ func (g *gen) maybeLine() Line {
 func (g *gen) restrictedLine() Line {
 	switch g.next("restricted", 3) {
 	case 0:
-		ln := g.validLine(false)
+		ln := g.validLine(false, 2)
 		// replace the timestamp by a negative one
 		if !ln.NoTS {
 			i := strings.LastIndexByte(ln.Text, ' ')
@@ -884,8 +927,8 @@ func (g *gen) restrictedLine() Line {
 		ln.Cats = append(ln.Cats, "restricted:negative-timestamp")
 		return ln
 	default:
-		form := []string{"comma", "backslash", "control", "semicolon-slash"}[g.next("restrictedform", 4)]
-		ln := g.validLine(false)
+		form := []string{"comma", "backslash", "semicolon-slash"}[g.next("restrictedform", 3)]
+		ln := g.validLine(false, 2)
 		var o identOut
 		if form == "semicolon-slash" {
 			c := []string{";", "/"}[g.r.IntN(2)]
